@@ -7,6 +7,7 @@ import random
 from typing import Any, Dict, List, Optional
 
 from sim.core import HarnessError, RunResult, mix
+from sim.notify import decode
 from sim.peers import snapshot_files
 from sim.system import System, draw_tables
 from sim.worlda import WorldA
@@ -132,7 +133,21 @@ async def scenario(world: WorldA) -> None:
         if f is None or not facade_ready.get(id(f)) or facade_bad:
             return
         devs = list(f.pumps) + list(f.blowers)
-        want = any(d.is_on for d in devs)
+        # "on" is decided from the client's own status block with an independent decoder of the device's state item (two-valued or
+        # OFF/LOW/HIGH enumerations, booleans): not from the library's is_on
+        blk = f.spa.struct.status_block
+        on_keys = []
+        for d in devs:
+            acc = d._state_sensor.accessor if hasattr(d, "_state_sensor") else None
+            if acc is None:
+                raise HarnessError("device without _state_sensor.accessor")
+            v = decode(acc, blk)
+            if v not in ("OFF", False, "", None):
+                on_keys.append(d.key)
+        want = bool(on_keys)
+        if want != any(d.is_on for d in devs):
+            facade_bad.append(f"t={world.now():.3f}: the state items say on={on_keys} but the devices' is_on say {[d.key for d in devs if d.is_on]}")
+            return
         res.probes["facade_wants_active" if want else "facade_wants_idle"] = res.probes.get("facade_wants_active" if want else "facade_wants_idle", 0) + 1
         m = mon.mode()
         if m not in ("both", "active" if want else "idle"):
